@@ -245,6 +245,11 @@ func (c *Container) Peek(n int) []byte {
 		return c.compartments[c.offset][:n]
 	}
 
+	// Never allocate more than what is available.
+	if available := c.Length(); n > available {
+		n = available
+	}
+
 	// Start gathering data.
 	slice := make([]byte, n)
 	copySlice := slice
